@@ -9,7 +9,17 @@ BMP = ISet.of((0x80, 0xD7FF), (0xE000, 0xFFFF))
 
 
 def bmp_classes(f, b):
-    bl = [i for i, l in enumerate(b.locals) if l.get('name') == 'bmp' and l['ty'] == 'u16']
+    # the BMP arm's code unit: a u16 local whose single definition is the payload of NonAscii::BmpExclAscii (found structurally)
+    bl = []
+    r0 = Resolver(b)
+    for i, l in enumerate(b.locals):
+        if l['ty'] == 'u16' and i > b.arg_count:
+            ds0 = [d for d in b.defs.get(i, []) if d[2] == 'assign']
+            if len(ds0) == 1 and len(b.defs.get(i, [])) == 1:
+                pl0 = op_place(ds0[0][3]['rv']['use']) if 'use' in ds0[0][3]['rv'] else None
+                # the binding itself (`_n = copy (x as BmpExclAscii).0`), not later copies of it
+                if pl0 is not None and any(isinstance(e, dict) and e.get('downcast') == 'BmpExclAscii' for e in pl0['p']):
+                    bl.append(i)
     if not bl:
         return None
     out = {}
